@@ -141,9 +141,9 @@ func applyHdr(r *http.Request, v string) error {
 const configuredPassword = "hunter2"
 
 // sessionCookieName is session.DefaultCookie.Name of github.com/kr/session
-// v0.2.1 (web.Handler never changes the name). When a login succeeds the name
-// on the issued cookie is used instead, so garbage cookies always sit under
-// the name this process really reads.
+// v0.2.1 (web.Handler never changes the name); garbage cookies are sent under
+// it. Cookies derived from an issued session keep the name they were issued
+// with; a differing name is counted (cookie_name_differs_from_library_default).
 const sessionCookieName = "session"
 
 type env struct {
@@ -155,7 +155,6 @@ type env struct {
 	ran  map[string]int // route path → times the protected stub ran for the current request
 
 	minted map[string]*http.Cookie // "R" login from remotePublic, "L" login from remoteLoopback
-	order  []string
 }
 
 // passwordOf reads the unexported Handler.password.
@@ -183,29 +182,29 @@ func newEnv(k cfg, rt *routeTable) (*env, error) {
 		switch k.PW {
 		case "configured":
 			e.conf.Dashboard.RootPassword = configuredPassword
+			e.pw = configuredPassword // the reference password IS the configured one; the handler's copy is not consulted
 		case "generated":
 		default:
 			return nil, fmt.Errorf("unknown password mode %q", k.PW)
 		}
 		// mgr and pgp are nil: the protected inner handlers are recording stubs
 		e.h = web.New(nil, e.conf, nil)
-		pw, err := passwordOf(e.h)
-		if err != nil {
-			return nil, err
+		if k.PW == "generated" {
+			pw, err := passwordOf(e.h)
+			if err != nil {
+				return nil, err
+			}
+			// A generated password made of digits only has no distinct
+			// "different case" spelling; draw again so that every guess class
+			// is a distinct string in every run (deterministic counts).
+			if pw != "" && strings.ToUpper(pw) == pw {
+				continue
+			}
+			// pw may be empty here (a tree that generates the password later);
+			// password() then finds it out when a guess first needs it. The
+			// guesses "empty" and "missing" never need it.
+			e.pw = pw
 		}
-		if pw == "" {
-			return nil, fmt.Errorf("handler has an empty password (mode %s)", k.PW)
-		}
-		if k.PW == "configured" && pw != configuredPassword {
-			return nil, fmt.Errorf("handler password %q differs from the configured one", pw)
-		}
-		// A generated password made of digits only has no distinct
-		// "different case" spelling; draw again so that every guess class
-		// is a distinct string in every run (deterministic counts).
-		if strings.ToUpper(pw) == pw || len(pw) < 2 {
-			continue
-		}
-		e.pw = pw
 		e.mux = http.NewServeMux()
 		e.mux.HandleFunc("/login", e.h.Login)
 		for _, r := range rt.Enum {
@@ -226,6 +225,29 @@ func newEnv(k cfg, rt *routeTable) (*env, error) {
 	return nil, fmt.Errorf("could not obtain a generated password with a letter in 1000 draws")
 }
 
+// password is the password an operator would type: the configured one, or the
+// generated one. If the handler holds no generated password yet, the operator's
+// way of learning it is taken first (open the login page from the machine
+// itself; Login discloses the temporary password in the log at that point) and
+// the field is read again.
+func (e *env) password() (string, error) {
+	if e.pw != "" {
+		return e.pw, nil
+	}
+	r := httptest.NewRequest("GET", "/login", nil)
+	r.RemoteAddr = remoteLoopback
+	e.serve(r)
+	pw, err := passwordOf(e.h)
+	if err != nil {
+		return "", err
+	}
+	if pw == "" {
+		return "", fmt.Errorf("handler has no password even after GET /login (mode %s)", e.k.PW)
+	}
+	e.pw = pw
+	return pw, nil
+}
+
 // serve runs one request through the mux; panics of the code under test are
 // returned, not propagated.
 func (e *env) serve(r *http.Request) (rec *httptest.ResponseRecorder, panicked any) {
@@ -242,13 +264,26 @@ func (e *env) serve(r *http.Request) (rec *httptest.ResponseRecorder, panicked a
 var guessClasses = []string{"correct", "wrong-last", "wrong-first", "empty", "missing", "prefix", "suffix", "case"}
 
 func (e *env) guess(class string) (val string, present bool, err error) {
+	// an empty or absent guess is never the password and needs no knowledge of it
+	switch class {
+	case "empty":
+		return "", true, nil
+	case "missing":
+		return "", false, nil
+	}
 	flip := func(b byte) byte {
 		if b == '0' {
 			return '1'
 		}
 		return '0'
 	}
-	p := e.pw
+	p, err := e.password()
+	if err != nil {
+		return "", false, err
+	}
+	if len(p) < 2 {
+		return "", false, fmt.Errorf("password %q is too short to derive guesses from", p)
+	}
 	switch class {
 	case "correct":
 		return p, true, nil
@@ -256,10 +291,6 @@ func (e *env) guess(class string) (val string, present bool, err error) {
 		return p[:len(p)-1] + string(flip(p[len(p)-1])), true, nil
 	case "wrong-first":
 		return string(flip(p[0])) + p[1:], true, nil
-	case "empty":
-		return "", true, nil
-	case "missing":
-		return "", false, nil
 	case "prefix":
 		return p[:len(p)-1], true, nil
 	case "suffix":
@@ -318,24 +349,15 @@ func (e *env) mint(tag string) *http.Cookie {
 	if tag == "L" {
 		remote = remoteLoopback
 	}
-	r, _, _ := e.loginReq("POST", remote, "none", "correct")
-	rec, p := e.serve(r)
 	var c *http.Cookie
-	if p == nil && rec.Code == http.StatusSeeOther {
-		c = sessionCookie(rec)
-	}
-	e.minted[tag] = c
-	e.order = append(e.order, tag)
-	return c
-}
-
-func (e *env) cookieName() string {
-	for _, t := range e.order {
-		if c := e.minted[t]; c != nil && c.Name != "" {
-			return c.Name
+	if r, _, err := e.loginReq("POST", remote, "none", "correct"); err == nil {
+		rec, p := e.serve(r)
+		if p == nil && rec.Code == http.StatusSeeOther {
+			c = sessionCookie(rec)
 		}
 	}
-	return sessionCookieName
+	e.minted[tag] = c
+	return c
 }
 
 // ---- cookie states --------------------------------------------------------
@@ -394,11 +416,14 @@ func resolvePos(s string, n int) (int, error) {
 	return strconv.Atoi(s)
 }
 
-func cookieFor(state string, e, other *env) (cookieUse, error) {
-	// mint in a fixed order so that every state sees the same handler history
-	r, l := e.mint("R"), e.mint("L")
-	name := e.cookieName()
+func cookieFor(state string, e *env, mkOther func() (*env, error)) (cookieUse, error) {
+	// States built from a session of THIS handler log in twice first, always in
+	// the order remote, loopback (the handler has then seen both kinds of login);
+	// the other states present their cookie to a handler nobody has logged in to.
+	// Either way the history is part of the case and the same on replay.
+	name := sessionCookieName
 	base := func(tag string) (*http.Cookie, error) {
+		r, l := e.mint("R"), e.mint("L")
 		c := r
 		if tag == "L" {
 			c = l
@@ -425,6 +450,10 @@ func cookieFor(state string, e, other *env) (cookieUse, error) {
 		return cookieUse{c.Name + "=" + c.Value, true, "valid"}, nil
 	case "other-remote", "other-loopback":
 		tag := map[string]string{"other-remote": "R", "other-loopback": "L"}[state]
+		other, err := mkOther() // another process: same configuration, own key
+		if err != nil {
+			return cookieUse{}, err
+		}
 		other.mint("R")
 		other.mint("L")
 		c := other.minted[tag]
